@@ -372,9 +372,10 @@ def run_property(pid, tier, seed):
     try:
         # 1. proof obligations
         ok_build, build_log = C.coq_build()
-        proof_ok, plog, axioms, n_stmt, n_qed = (False, build_log, [], 0, 0)
-        if ok_build:
-            proof_ok, plog, axioms, n_stmt, n_qed = C.props_assumptions(pid)
+        # the property's own Props file (and through it its dependency cone) decides
+        proof_ok, plog, axioms, n_stmt, n_qed = C.props_assumptions(pid)
+        if not proof_ok:
+            plog = plog + "\n--- make log ---\n" + build_log[-3000:]
         bad = C.audit()
         if bad:
             proof_ok = False
